@@ -11,7 +11,7 @@
 From Coq Require Import ZArith List Lia Bool ZifyBool.
 From LZ4V Require Import Gen.Consts Spec.BlockSpec Model.Mem Model.Fast Model.HcEmit Model.HcMid Model.HcChain Model.HcOpt.
 From LZ4V Require Import Proofs.BlockSpecProofs Proofs.FactorSpec Proofs.FastBasics Proofs.FastCap Proofs.HcEmitProofs.
-From LZ4V Require Import Proofs.HcMidSound Proofs.HcMidCap Proofs.HcChainSearch Proofs.HcChainSound Proofs.HcChainCap Proofs.HcChainParser.
+From LZ4V Require Import Proofs.HcMidSound Proofs.HcMidCap Proofs.HcChainSearch Proofs.HcChainSound Proofs.HcChainCap Proofs.HcChainFill Proofs.HcChainParser.
 Import ListNotations.
 Local Open Scope Z_scope.
 
@@ -464,6 +464,153 @@ Section OptProof.
     - cbn [c_tabs c_ip]. exact HT.
     - cbn [c_ip]. lia.
   Qed.
+
+  (* ================= fillOutput: strict end-of-block conditions (appended; nothing above is changed) ================= *)
+  Notation FInv := (cFInv vrd dictIdx s0 srcSize maxOut).
+  Notation RFill := (cRFill vrd dictIdx s0).
+
+  Lemma oenc_both s ml off : lim = FillOutput ->
+    Base s -> CInv s -> FInv s -> c_ip s <= mflimit -> match_ok vrd lo (c_ip s) off ml -> c_ip s + ml <= matchlimit ->
+    TB (c_tabs s) iend ->
+    match c_encode vrd lim s0 srcSize s ml off oes with
+    | inl s' => (Base s' /\ CInv s' /\ c_ip s' = c_ip s + ml /\ c_anchor s' = c_ip s + ml /\ c_tabs s' = c_tabs s) /\ FInv s'
+    | inr r => RFill r
+    end.
+  Proof. intros. eapply (enc_both vrd lim prefixIdx dictIdx s0 srcSize maxOut); eassumption. Qed.
+
+  Lemma oFInv_ip s x : FInv s -> FInv (with_ip s x).
+  Proof. intros H. apply (cFInv_same vrd dictIdx s0 srcSize maxOut s); [exact H | reflexivity | reflexivity | reflexivity]. Qed.
+  Lemma oFInv_tabs s t : FInv s -> FInv (with_tabs s t).
+  Proof. intros H. apply (cFInv_same vrd dictIdx s0 srcSize maxOut s); [exact H | reflexivity | reflexivity | reflexivity]. Qed.
+
+  Lemma emit_fill (Hfo : lim = FillOutput) ip0 lmp o : ip0 + lmp <= iend -> forall fuel s rPos,
+    Good o ip0 lmp rPos -> 0 <= rPos -> c_ip s = ip0 + rPos -> Base s -> CInv s -> FInv s -> TB (c_tabs s) iend ->
+    match emit vrd lim s0 srcSize fuel o s rPos lmp oes with
+    | None => True
+    | Some (inl s') => FInv s'
+    | Some (inr r) => RFill r
+    end.
+  Proof.
+    intros Hle. induction fuel as [|f IH]; intros s rPos HG Hr Hip HB HC HF HT; [exact I|].
+    cbn [emit]. cbv zeta. pose proof olimits as (L1 & L2 & L3).
+    destruct HG as [p Hp | p Hp Hs HG].
+    - replace (p <? lmp) with false by lia. exact HF.
+    - replace (p <? lmp) with true by lia.
+      destruct Hs as [H1|(S1 & S2 & S3 & S4)].
+      + rewrite H1 in *. cbn [Z.eqb Pos.eqb].
+        apply (IH (with_ip s (c_ip s + 1)) (p + 1) HG ltac:(lia) ltac:(cbn [with_ip c_ip]; lia)
+                 ltac:(apply Base_with_ip; [exact HB | destruct HB as (_ & B2 & _); lia]) HC (oFInv_ip s _ HF) HT).
+      + replace (omlen o p =? 1) with false by lia.
+        pose proof (oenc_both s (omlen o p) (ooff o p) Hfo HB HC HF ltac:(lia) ltac:(rewrite Hip; exact S2) ltac:(lia) HT) as HE.
+        destruct (c_encode vrd lim s0 srcSize s (omlen o p) (ooff o p) oes) as [s1|r]; [|exact HE].
+        destruct HE as ((E1 & E2 & E3 & E4 & E5) & EF).
+        apply (IH s1 (p + omlen o p) HG ltac:(lia) ltac:(lia) E1 E2 EF ltac:(rewrite E5; exact HT)).
+  Qed.
+
+  Lemma opt_encode_fill (Hfo : lim = FillOutput) ip0 o s cur lmp bm bo :
+    0 <= cur < lmp -> RG o ip0 0 (cur + 1) -> SegOK ip0 cur bm bo -> lmp <= cur + bm -> ip0 + lmp <= iend ->
+    c_ip s = ip0 -> Base s -> CInv s -> FInv s -> TB (c_tabs s) iend ->
+    match opt_encode vrd lim s0 srcSize o s cur lmp bm bo oes with
+    | None => True
+    | Some (o', inl s') => FInv s'
+    | Some (o', inr r) => RFill r
+    end.
+  Proof.
+    intros Hc HR Hsel Hend Hle Hip HB HC HF HT. unfold opt_encode.
+    destruct (traverse_spec ip0 lmp (S (Z.to_nat cur)) o cur bm bo Hc ltac:(lia) HR Hsel ltac:(apply G_end; lia)) as (o' & Ht & Hg).
+    rewrite Ht.
+    pose proof (emit_fill Hfo ip0 lmp o' Hle (S (Z.to_nat lmp)) s 0 Hg ltac:(lia) ltac:(lia) HB HC HF HT) as HE.
+    destruct (emit vrd lim s0 srcSize (S (Z.to_nat lmp)) o' s 0 lmp oes) as [[s'|r]|]; [exact HE | exact HE | exact I].
+  Qed.
+
+  Lemma opt_step_fill (Hfo : lim = FillOutput) s o :
+    Base s -> CInv s -> FInv s -> TB (c_tabs s) (c_ip s) -> c_ip s <= mflimit ->
+    match opt_step vrd prefixIdx dictIdx lim s0 srcSize nb suff0 full fav s o oes with
+    | inl (s', o') => FInv s'
+    | inr r => RFill r
+    end.
+  Proof.
+    intros HB HC HF HT Hip. pose proof olimits as (L1 & L2 & L3). pose proof HB as (B1 & B2 & B3 & B4 & B5).
+    pose proof suff_lt as Hsl.
+    unfold opt_step. cbv zeta. set (ip0 := c_ip s) in *.
+    destruct (findLongerMatch_spec (c_tabs s) ip0 ip0 (MINMATCH - 1) HT ltac:(lia) ltac:(lia) Hip ltac:(unfold MINMATCH; lia))
+      as (fm & t & Hs & HT1 & Hfm).
+    rewrite Hs.
+    destruct (hm_len fm =? 0) eqn:E0; [apply oFInv_ip; apply oFInv_tabs; exact HF|].
+    destruct Hfm as [Hz|(F4 & Fm & Fl)]; [lia|].
+    assert (HTe : TB t iend) by (eapply TB_mono; eauto; lia).
+    destruct (hm_len fm >? suff) eqn:Es.
+    { pose proof (oenc_both (with_tabs s t) (hm_len fm) (hm_off fm) Hfo HB HC (oFInv_tabs s t HF) Hip Fm Fl HTe) as HE.
+      destruct (c_encode vrd lim s0 srcSize (with_tabs s t) (hm_len fm) (hm_off fm) oes) as [s'|r]; [|exact HE].
+      destruct HE as (_ & EF). exact EF. }
+    unfold MINMATCH, HC_TRAILING_LITERALS. change (Z.to_nat 4) with 4%nat. change (Z.to_nat 3) with 3%nat.
+    set (llen := ip0 - c_anchor s).
+    assert (R1 : RG (opt_init_lits 4 o llen 0) ip0 0 4).
+    { apply (opt_init_lits_spec 4 o llen 0 ip0). intros k Hk. lia. }
+    set (o1 := opt_init_lits 4 o llen 0) in *.
+    assert (R2 : RG (opt_init_match (Z.to_nat (hm_len fm - 4 + 1)) o1 llen (hm_off fm) 4) ip0 0 (hm_len fm + 1)).
+    { replace (hm_len fm + 1) with (4 + Z.of_nat (Z.to_nat (hm_len fm - 4 + 1))) by lia.
+      apply (opt_init_match_spec ip0 (hm_off fm) (hm_len fm) Fm Fl Hip); [lia | lia | exact R1]. }
+    set (o2 := opt_init_match (Z.to_nat (hm_len fm - 4 + 1)) o1 llen (hm_off fm) 4) in *.
+    assert (R3 : RG (opt_trailing 3 o2 (hm_len fm) 1) ip0 0 (hm_len fm + 4)).
+    { replace (hm_len fm + 4) with (hm_len fm + 1 + Z.of_nat 3) by lia. apply opt_trailing_spec. exact R2. }
+    set (o3 := opt_trailing 3 o2 (hm_len fm) 1) in *.
+    pose proof (dp_loop_spec ip0 ltac:(lia) (Z.to_nat HC_OPT_NUM) o3 t 1 (hm_len fm) R3 ltac:(lia) ltac:(lia)
+                  ltac:(apply (TB_mono t ip0); [exact HT1 | lia]) ltac:(lia) ltac:(unfold HC_OPT_NUM; lia)) as HD.
+    destruct (dp_loop vrd prefixIdx dictIdx s0 srcSize nb suff0 full fav (Z.to_nat HC_OPT_NUM) o3 t ip0 1 (hm_len fm))
+      as [o' t' lmp' | o' t' cur' bm bo | ]; [| | contradiction].
+    - destruct HD as (D1 & D2 & D3 & D4).
+      pose proof (D1 lmp' ltac:(lia)) as He.
+      assert (Hseg : 0 <= lmp' - omlen o' lmp' < lmp' /\ SegOK ip0 (lmp' - omlen o' lmp') (omlen o' lmp') (ooff o' lmp')).
+      { destruct He as [He|(He1 & He2 & He3 & He4)].
+        - rewrite He. split; [lia | left; reflexivity].
+        - split; [lia|]. right. split; [lia|].
+          split; [replace (ip0 + (lmp' - omlen o' lmp')) with (ip0 + lmp' - omlen o' lmp') by lia; exact He2|]. split; lia. }
+      destruct Hseg as (Hc & Hsg).
+      pose proof (opt_encode_fill Hfo ip0 o' (with_tabs (with_tabs s t) t') (lmp' - omlen o' lmp') lmp' (omlen o' lmp') (ooff o' lmp')
+                    Hc ltac:(intros k Hk; apply D1; lia) Hsg ltac:(lia) ltac:(lia) eq_refl HB HC (oFInv_tabs _ t' (oFInv_tabs s t HF))
+                    ltac:(cbn [with_tabs c_tabs]; apply (TB_mono t' (ip0 + lmp')); [exact D3 | lia])) as HE.
+      destruct (opt_encode vrd lim s0 srcSize o' (with_tabs (with_tabs s t) t') (lmp' - omlen o' lmp') lmp' (omlen o' lmp') (ooff o' lmp') oes)
+        as [[o'' [s'|r]]|]; [exact HE | exact HE | exact I].
+    - destruct HD as (D1 & D2 & D3 & D4 & D5 & D6 & D7 & D8).
+      pose proof (opt_encode_fill Hfo ip0 o' (with_tabs (with_tabs s t) t') cur' (cur' + 1) bm bo
+                    ltac:(lia) D1 ltac:(right; split; [lia | split; [exact D6 | split; lia]]) ltac:(lia) ltac:(lia) eq_refl HB HC
+                    (oFInv_tabs _ t' (oFInv_tabs s t HF))
+                    ltac:(cbn [with_tabs c_tabs]; apply (TB_mono t' (ip0 + cur' + 1)); [exact D4 | lia])) as HE.
+      destruct (opt_encode vrd lim s0 srcSize o' (with_tabs (with_tabs s t) t') cur' (cur' + 1) bm bo oes)
+        as [[o'' [s'|r]]|]; [exact HE | exact HE | exact I].
+  Qed.
+
+  Lemma opt_main_fill (Hfo : lim = FillOutput) : forall fuel s o,
+    Base s -> CInv s -> FInv s -> TB (c_tabs s) (c_ip s) ->
+    RFill (opt_main vrd prefixIdx dictIdx lim s0 srcSize nb suff0 full fav fuel s o oes).
+  Proof.
+    induction fuel as [|f IH]; intros s o HB HC HF HT; [exact I|]. cbn [opt_main].
+    pose proof olimits as (L1 & L2 & L3).
+    destruct (c_ip s <=? mflimit) eqn:E.
+    - pose proof (opt_step_spec s o HB HC HT ltac:(lia)) as HS.
+      pose proof (opt_step_fill Hfo s o HB HC HF HT ltac:(lia)) as HS2.
+      destruct (opt_step vrd prefixIdx dictIdx lim s0 srcSize nb suff0 full fav s o oes) as [[s' o']|r]; [|exact HS2].
+      destruct HS as (S1 & S2 & S3 & S4). apply IH; assumption.
+    - rewrite (oes_restore lim maxOut). rewrite Hfo.
+      destruct HB as (B1 & B2 & B3 & _). eapply c_ll_fill; try eassumption; lia.
+  Qed.
+
+  (* LZ4HC_compress_optimal with limit == fillOutput: the block is STRICTLY valid for the consumed prefix *)
+  Theorem opt_compress_fill_strict t : lim = FillOutput -> TB t s0 ->
+    RFill (opt_compress vrd prefixIdx dictIdx lim s0 srcSize maxOut nb suff0 full fav t).
+  Proof.
+    intros Hfo HT. pose proof olimits as (L1 & L2 & L3). unfold opt_compress. cbv zeta. rewrite (oes_def lim maxOut).
+    apply (opt_main_fill Hfo).
+    - unfold HcChainSound.Base. cbn [c_ip c_anchor c_op c_rout].
+      split; [lia|]. split; [lia|]. split; [lia|]. split; [|reflexivity].
+      exists []. cbn. split; [reflexivity|]. split; [exact I|]. split; [reflexivity | exact I].
+    - unfold HcChainCap.CInv. cbn [c_hw c_op c_anchor]. assert (0 <= chw lim srcSize maxOut) by (eapply chw_nonneg; eassumption).
+      split; [lia|]. split; [lia|]. split; [intros; lia | intros; lia].
+    - apply cFInv_init.
+    - cbn [c_tabs c_ip]. exact HT.
+  Qed.
 End OptProof.
 
 Print Assumptions opt_compress_ok.
+Print Assumptions opt_compress_fill_strict.
